@@ -17,7 +17,7 @@ JOBS = {'quick': 4, 'thorough': 16}
 REQUIRED_MONITORS = ('trace_checked', 'metropolis_direct', 'acceptance_draw_observed', 'ring_moves_checked')
 REQUIRED_CLASSES = ('types:(0,)', 'types:(1,)', 'types:(2,)', 'types:(0, 1, 2)', 'types:(0, 1)', 'budget:1', 'budget:2',
                     'budget:>=100', 'restraints:none', 'restraints:partial', 'restraints:all-fixed', 'restraints:mobile-in-order', 'worse-accepted',
-                    'worse-rejected', 'improved', 'units:small', 'units:large', 'proposal:non-finite-measure', 'proposal:translation', 'proposal:rotation', 'proposal:atom-move')
+                    'worse-rejected', 'improved', 'units:small', 'units:large', 'proposal:non-finite-measure', 'mobile:multi-residue', 'proposal:translation', 'proposal:rotation', 'proposal:atom-move')
 RULE = ('runs of minimize_molecules over (mobile molecule: random tree / cyclic graph 1..25 atoms) x (fixed set 1..40 points) '
         'x deformation-type subset x step budget {1,2,3,10,100,2000, random} x restraint class x seed. Every step of every run '
         'is checked. Non-trivial run: at least one accepted and one rejected proposal. distinct = distinct (n_mobile, n_fixed, '
@@ -105,7 +105,15 @@ def run_run(ctx, case):
             if gen.min_pair_distance(trial) > 1e-3:
                 pos = trial
                 ctx.hit('mobile:collinear-neighbours')
-    mob = gen.make_molecule('MOB', gen.atom_names(nm, 'B'), edges, pos)
+    if nm >= 2 and i % 3 == 1:
+        # a mobile molecule of several residues (the bond table handed to the search is the molecule's own)
+        nres = int(rng.integers(2, min(nm, 4) + 1))
+        cuts = sorted(int(x) for x in rng.choice(np.arange(1, nm), nres - 1, replace=False))
+        rid = [int(r) + 1 for r in np.searchsorted(cuts, np.arange(nm), side='right')]
+        mob = gen.make_molecule('MOB', gen.atom_names(nm, 'B'), edges, pos, resnames=[f'M{r}' for r in rid], resids=rid)
+        ctx.hit('mobile:multi-residue')
+    else:
+        mob = gen.make_molecule('MOB', gen.atom_names(nm, 'B'), edges, pos)
     nf = int(rng.integers(1, 41))
     fixed = gen.random_positions(rng, nf) + rng.normal(size=3) * rng.choice([0.0, 0.5, 3.0])
     rcls = ['none', 'partial', 'all-fixed', 'mobile-in-order'][int(rng.integers(0, 4))]
@@ -189,7 +197,9 @@ def run_run(ctx, case):
                                   'tabulated length and they do not connect the molecule', witness=dict(w, edges=edges))
                     break
     if not cyclic and nm > 1:
-        table = {(min(a, b), max(a, b)): l for a, lst in bonds.items() for b, l in lst}
+        # bond-preserving with respect to the configuration the search started from: lengths measured here on the
+        # initial coordinates along the generator's own bonds (not read from the table the library built)
+        table = {(min(a, b), max(a, b)): float(np.linalg.norm(initial[a] - initial[b])) for a, b in edges}
         for ev in tracer.events:
             if ev[0] == 'move':
                 out = ev[2]
